@@ -172,11 +172,26 @@ class Ctx:
             rc, out = sh([sys.executable, os.path.join(VERIF, 'translators', 'statics.py'), lib, os.path.join(GEN_DIR, 'Statics.lean')])
         return rc == 0, out
 
+    def translate_grammars(self):
+        """LALR tables, semantic actions, symbol names and the yylex classification of the SQF and the config grammar,
+        read out of the checked-in parser.tab.cc files of the current tree -> Generated/{Sqf,Cfg}Grammar.lean"""
+        os.makedirs(GEN_DIR, exist_ok=True)
+        ok, log = True, ''
+        with Lock('gen'):
+            for sub, kindsrc, ns in (('sqf', 'astnode.hpp', 'SqfGrammar'), ('config', 'parser.tab.hh', 'CfgGrammar')):
+                d = os.path.join(REPO, 'src', 'parser', sub)
+                rc, out = sh([sys.executable, os.path.join(VERIF, 'translators', 'lalr.py'), os.path.join(d, 'parser.tab.cc'),
+                              os.path.join(d, 'parser.tab.hh'), os.path.join(d, kindsrc), os.path.join(GEN_DIR, ns + '.lean'), ns])
+                ok = ok and rc == 0
+                log += out
+        return ok, log
+
     def translate_all(self):
         ok, out = self.translate_registry()
         ok2, out2 = self.translate_diag()
         ok3, out3 = self.translate_statics()
-        return ok and ok2 and ok3, out + out2 + out3
+        ok4, out4 = self.translate_grammars()
+        return ok and ok2 and ok3 and ok4, out + out2 + out3 + out4
 
     # ---- Lean ---------------------------------------------------------------------------------
     def lean_build(self, targets):
